@@ -2,9 +2,14 @@
 From Coq Require Import List Bool Arith.
 From Core Require Import DtypeTable Dtype.
 Import ListNotations.
-Record dcase := { dtree : dsk; ddx : dt; dA : dt; dout : dt; drout : dt; dhas_left : bool }.
+Record dcase := { dtree : dsk; ddx : dt; dA : dt; dout : dt; drout : dt; dhas_left : bool; ddense : dt }.
+(* A.to_dense() has the operator's dtype: compared when no dtype finding is present (all flags off), where the model's
+   dtype is the promoted dtype of the leaves (DtypeProofs.dtype_promoted) *)
+Definition all_off (fl : dflags) : bool :=
+  negb (sum_first fl || concat_first fl || ident_pass fl || perm_pass fl || kronsum_inplace fl || sliced_cast fl).
 Definition check_dt (fl : dflags) (c : dcase) : bool :=
   dt_eqb (dtype fl (dtree c)) (dA c) && dt_eqb (out_dtype fl (dtree c) (ddx c)) (dout c)
-  && (negb (dhas_left c) || dt_eqb (rout_dtype fl (dtree c) (ddx c)) (drout c)).
+  && (negb (dhas_left c) || dt_eqb (rout_dtype fl (dtree c) (ddx c)) (drout c))
+  && (negb (all_off fl) || dt_eqb (dtype fl (dtree c)) (ddense c)).
 Fixpoint dfailing (fl : dflags) (i : nat) (cs : list dcase) : list nat :=
   match cs with [] => [] | c :: r => if check_dt fl c then dfailing fl (S i) r else i :: dfailing fl (S i) r end.
